@@ -2,6 +2,7 @@
    conclusions are not vacuous, and the documented exclusions are visible. *)
 From Coercion.Secure Require Import GoVal SecureModel SecureSpec Registry Surfaces.
 
+Notation "x |> f" := (f x) (at level 50, only parsing).
 Definition fld (n : N) (t : tag) (v : gv) : fmeta * gv := ({| f_name := n; f_exported := true; f_embedded := false; f_tag := t |}, v).
 Definition ufld (n : N) (v : gv) : fmeta * gv := ({| f_name := n; f_exported := false; f_embedded := false; f_tag := TNone |}, v).
 
@@ -96,13 +97,58 @@ Proof. reflexivity. Qed.
 Example reg_descends_below_tagged :
   find_secrets (TyStruct [tf 3 true TSecure (TyStruct [tf 6 true TNone TyStr])]) = Some [0; 0].
 Proof. reflexivity. Qed.
-(* what the code does NOT follow: slices, maps, arrays (and interfaces have no static fields) *)
-Example reg_not_below_slice :
-  find_secrets (TyStruct [tf 2 false TNone (TySlice (TyStruct [tf 3 true TNone TyStr]))]) = None.
+(* since commit 3e0a32d the walk also looks through slices, arrays and maps (keys and elements) *)
+Example reg_below_slice :
+  find_secrets (TyStruct [tf 2 false TNone (TySlice (TyStruct [tf 3 true TNone TyStr]))]) = Some [0; 0].
 Proof. reflexivity. Qed.
-Example reg_not_below_map :
-  find_secrets (TyStruct [tf 2 false TNone (TyMap (TyPtr (TyStruct [tf 3 true TNone TyStr])))]) = None.
+Example reg_below_map_elem :
+  find_secrets (TyStruct [tf 2 false TNone (TyMap TyStr (TyPtr (TyStruct [tf 3 true TNone TyStr])))]) = Some [0; 0].
 Proof. reflexivity. Qed.
+Example reg_below_map_key :
+  find_secrets (TyMap (TyStruct [tf 3 true TNone TyStr]) TyBool) = Some [0].
+Proof. reflexivity. Qed.
+Example reg_below_array_of_slices :
+  find_secrets (TySlice (TyArray (TySlice (TyStruct [tf 1 false TNone TyStr; tf 3 true TNone TyStr])))) = Some [1].
+Proof. reflexivity. Qed.
+(* the pre-fix walk (pointers only) accepted these: X7 *)
+Fixpoint find_secrets_x7 (t : ty) : bool :=
+  match t with
+  | TyPtr t' => find_secrets_x7 t'
+  | TyStruct fs => existsb (fun p => offending (fst p) || find_secrets_x7 (snd p)) fs
+  | _ => false
+  end.
+Example x7_refuted :
+  find_secrets_x7 (TyStruct [tf 2 false TNone (TySlice (TyStruct [tf 3 true TNone TyStr]))]) = false /\
+  exists m, reach (TyStruct [tf 2 false TNone (TySlice (TyStruct [tf 3 true TNone TyStr]))]) m /\ offending m = true.
+Proof.
+  split; [reflexivity|]. exists (fst (tf 3 true TNone TyStr)). split; [|reflexivity].
+  eapply R_field; [left; reflexivity|]. apply R_slice. eapply R_here. left. reflexivity.
+Qed.
+
+(* embedded struct of unexported type that is ITSELF tagged secure (commit ea18f48): every promoted field is hidden,
+   also two levels deep and behind a pointer; a nil embedded pointer stays nil *)
+Definition emb_t (n : N) (t : tag) (v : gv) : fmeta * gv := ({| f_name := n; f_exported := false; f_embedded := true; f_tag := t |}, v).
+Definition inner2 (a b : N) : gv := VStruct [fld 1020 TNone (VStr a); emb 1021 (VStruct [fld 1022 TNone (VStr b); fld 1023 TNone (VNum 5)])].
+Example ex_embedded_tagged :
+  secure (VPtr (Some (VStruct [emb_t 1012 TSecure (inner2 60 61); emb_t 1013 TSecure (VPtr (Some (inner2 62 63)));
+                               emb_t 1014 TSecure (VPtr None); emb_t 1015 TIgnore (inner2 64 65); fld 1003 TNone (VStr 10)])))
+  = OOk (VPtr (Some (VStruct [emb_t 1012 TSecure (inner2 1 1 |> fun v => match v with VStruct [a; (m, VStruct [b; _])] => VStruct [a; (m, VStruct [b; fld 1023 TNone (VNum 0)])] | _ => v end);
+                              emb_t 1013 TSecure (VPtr (Some (VStruct [fld 1020 TNone (VStr 1); emb 1021 (VStruct [fld 1022 TNone (VStr 1); fld 1023 TNone (VNum 0)])])));
+                              emb_t 1014 TSecure (VPtr None); emb_t 1015 TIgnore (inner2 64 65); fld 1003 TNone (VStr 10)]))).
+Proof. vm_compute. reflexivity. Qed.
+Example ex_embedded_tagged_exposed :
+  sec_at (VStruct [emb_t 1013 TSecure (VPtr (Some (inner2 62 63)))]) (VStr 63).
+Proof.
+  eapply SA_embed_tagged_ptr with (m := fst (emb_t 1013 TSecure (VStr 0))) (x := inner2 62 63); try reflexivity.
+  - left. reflexivity.
+  - unfold inner2. eapply P_embed with (m := fst (emb 1021 (VStr 0))); try reflexivity.
+    + right. left. reflexivity.
+    + eapply P_here with (m := fst (fld 1022 TNone (VStr 0))); [left; reflexivity | reflexivity].
+Qed.
+(* the pre-fix behaviour (the tag on the embedded field ignored: descend as for an untagged one) leaves it exposed: X6 *)
+Example x6_refuted :
+  scrubbedb (VStruct [emb_t 1013 TSecure (VPtr (Some (inner2 62 63)))]) = false.
+Proof. vm_compute. reflexivity. Qed.
 
 (* ---- a plan: one check action, one block with one sequence of two actions, attempts with responses ---- *)
 Definition req1 : gv := VIface (Some (VPtr (Some (creds 30 31)))).
